@@ -263,21 +263,33 @@ PROCESS_OUTPUT = dict(
 )
 
 
-def po_inv(self, old, ghost, _i, pdu_to_send):
+def po_inv(self, old, ghost, _i=None, pdu_to_send=None):
+    """loop invariant of _process_output, stated over the two queues and not over the loop's temporaries: n = the
+    number of frames that have joined the unacknowledged ones so far.  It is meant for either shape of the loop:
+    `for pdu in islice(waiting, room): send(pdu)` followed by `waiting = waiting[room:]` (the waiting list is not
+    touched inside the loop; the counter `_i` and the local `pdu_to_send` exist and `_i == n`), and
+    `while waiting and <room>: send(waiting.pop(0))` (no counter: `_i` / `pdu_to_send` are optional parameters; the
+    waiting list is consumed as frames are sent).  The window bound is a clause of the invariant itself, so a loop
+    that lets one frame too many through fails `inv-preserved` whatever it looks like"""
     a = self._last_acked_tx_seq
+    consumed = _i is None
+    n = len(self._tx_window) - len(old.self._tx_window) if consumed else _i
     return [
-        # (pdu_to_send is not assigned in the loop: it keeps the value the code computed)
-        0 <= _i and _i <= len(old.self._pending_pdus) and _i <= pdu_to_send,
+        0 <= n and n <= len(old.self._pending_pdus) and n == len(self._tx_window) - len(old.self._tx_window),
+        # Core Vol 3 Part A 8.6.?: never more unacknowledged I-frames than the peer's TxWindow, at every iteration
+        len(self._tx_window) <= self.peer_tx_window_size,
+        # (for-shape: pdu_to_send is not assigned in the loop: it keeps the value the code computed)
+        consumed or _i <= pdu_to_send,
         not blocked(self),
-    ] + moved(self, old, _i, False) + [
+    ] + moved(self, old, n, consumed) + [
         numbered(col(self._tx_window, 'tx_seq'), a),
-        numbered(col(self._pending_pdus, 'tx_seq'), a + len(old.self._tx_window)),
+        numbered(col(self._pending_pdus, 'tx_seq'), a + len(old.self._tx_window) + (n if consumed else 0)),
         ghost.iseq == (a + len(self._tx_window)) % 64,
         seqno(self._last_acked_rx_seq),
         wire_wf(ghost),
-    ] + wire(self, old, ghost, _i) + [
-        implies(_i > 0, self._last_acked_rx_seq == self._req_seq_num and self._receiver_ready_poll_handle is not None),
-        implies(_i == 0, self._last_acked_rx_seq == old.self._last_acked_rx_seq),
+    ] + wire(self, old, ghost, n) + [
+        implies(n > 0, self._last_acked_rx_seq == self._req_seq_num and self._receiver_ready_poll_handle is not None),
+        implies(n == 0, self._last_acked_rx_seq == old.self._last_acked_rx_seq),
     ]
 
 
